@@ -121,6 +121,36 @@ def run(ctx):
             meta.append("quantize_activation")
             ctx.evaluations += 1
             ctx.nontriv(lines[-1] + str(shape))
+    # ---- accepted 8-bit requests are honoured on values too (C01 on the result): all three storage types, scales that
+    # leave the tensor in range and scales that make part of it saturate — judged by the Lean predicate `spec01`
+    import c01
+    s1_lines, s1_meta = [], []
+    for F, dt in (("f32", torch.float32), ("f16", torch.float16), ("bf16", torch.bfloat16)):
+        for Q, qn in (("qint8", "qint8"), ("e4m3", "qfloat8_e4m3fn"), ("e5m2", "qfloat8_e5m2")):
+            for sat in (1.0, 1e-3, 1e-6):
+                x = (torch.randn(24, generator=g) * 50).to(dt)
+                qmax = {"qint8": 127.0, "e4m3": 448.0, "e5m2": 57344.0}[Q]
+                sc = (x.abs().max().float() / qmax * sat).to(dt)
+                if float(sc) == 0 or not bool(torch.isfinite(sc)):
+                    continue
+                for site, fn in (("quantize_activation", lambda: q.quantize_activation(x, q.qtypes[qn], sc)),
+                                 ("SymmetricQuantizer", lambda: SymmetricQuantizer.apply(x, q.qtypes[qn], None, sc))):
+                    try:
+                        r = fn()
+                        d = r.dequantize()
+                    except Exception as ex:  # noqa
+                        ctx.spec_failures.append((f"C14:wrong-exception:{site}:{exc_name(ex)}", {"F": F, "qtype": qn, "saturating": sat != 1.0, "message": str(ex)[:150]}))
+                        continue
+                    s1_lines.append(f"spec01 {F} {Q} {list_s(bits_of(x, F))} {list_s(bits_of(r._scale, F))} {list_s(c01.codes_of(r._data, Q))} {list_s(bits_of(d, F))}")
+                    s1_meta.append({"site": site, "F": F, "qtype": qn, "scale_factor": sat})
+                    ctx.evaluations += 1
+                    ctx.count(f"honoured-on-values:{site}:{Q}:{'saturating' if sat != 1.0 else 'in-range'}")
+    s1_out = run_driver(s1_lines, weights=[len(l) * 60 for l in s1_lines])
+    for l, o, m in zip(s1_lines, s1_out, s1_meta):
+        if o != "ok":
+            verdict = o.split()[1].split(":", 1)[1] if len(o.split()) > 1 and ":" in o.split()[1] else "fail"
+            known_overflow = "overflow" in verdict
+            ctx.spec_failures.append((f"C14:accepted-but-violates-C01:{m['site']}:{verdict}", dict(m, verdict=o[:200], replay=l[:1500])))
     # ---- AffineQuantizer: qtype family, axis, group
     for shape in ([4, 6], [2, 2, 3], [8]):
         x = torch.randn(shape, generator=g)
